@@ -8,17 +8,17 @@ HOOK_COMMITS = ["b1c913c", "c8ae78c"]
 CHECKS = {
     "C02": ("model_checking",
             "explicit-state BFS over follower delivery schedules of real nodes, exact-digest dedup",
-            "For every producer history of a bounded family (3 scripted + all depth-2/3 sequences over a 7-op alphabet) the follower's whole delivery-schedule space (batch boundaries, gossip of account blocks before their momentum incl. lag, re-delivery, restart with kept/wiped consensus cache, warmed historical views) is enumerated breadth-first on real nodes; after every transition the follower's raw store, undo/redo patches, frontier and historical views must equal the producer's at the same height.",
+            "For every producer history of a bounded family (4 scripted, incl. one where an account cancels its own plasma fusion and then sends blocks acknowledging the momentum before the cancellation + all depth-2/3 sequences over a 7-op alphabet) the follower's whole delivery-schedule space (batch boundaries, gossip of account blocks before their momentum incl. lag, re-delivery, restart with kept/wiped consensus cache, warmed historical views) is enumerated breadth-first on real nodes; after every transition the follower's raw store, undo/redo patches, frontier and historical views must equal the producer's at the same height.",
             "Trusted: goleveldb, the harness's raw dump; bounds: histories of <=7 momentums, batch <=3/4, gossip window 1/2; fetcher/downloader timers not explored.",
             "5/C02"),
     "C07": ("model_checking",
             "explicit-state BFS over store operation sequences vs map-per-version reference + preemption-bounded schedule exploration (writer vs readers) under a controlled scheduler",
-            "Part A: every sequence of <=6 (quick) / <=7 (thorough) operations (commit on frontier with 4/6 write sets incl. empty values, deletes, re-creations and prefix-sharing keys; commit on stale and on rolled-back parents; rollback; open view at any commit / frontier / rolled-back commit; snapshot; write through view) on the real leveldb-backed and memory-backed managers, exact-state dedup (raw bytes + cache overlays + open views); after every transition every open view's Get/Has for every key, every prefix scan and Changes() are compared with a map-per-version reference. Part B: writer [Add,Add,Pop,Add] / [Pop,Pop,Add] against a historical-view reader and a frontier reader, all schedules with <=1 (quick) / <=2 (thorough) preemptions, scheduling points at every mutex acquisition and before every leveldb write.",
+            "Part A: every sequence of <=6 (quick) / <=7 (thorough) operations (commit on frontier with 4/6 write sets incl. empty values, deletes, re-creations and prefix-sharing keys; commit on stale and on rolled-back parents; rollback; open view at any commit / frontier / rolled-back commit; snapshot; write through view) on the real leveldb-backed and memory-backed managers, exact-state dedup (raw bytes + cache overlays + open views); after every transition every open view's Get/Has for every key, every prefix scan and Changes() are compared with a map-per-version reference. Part A2: long histories of 366 commits (views straddling the 360-commit boundary of the second view cache warmed pairwise, 1-3 rollbacks, 0-2 different commits, all views reopened). Part B: writer [Add,Add,Pop,Add] / [Pop,Pop,Add] against two historical-view readers (one with a single late read) and a frontier reader, all schedules with <=1 (quick) / <=2 (thorough) preemptions, scheduling points at every mutex acquisition and before every leveldb write.",
             "Trusted: goleveldb snapshots/iterators, the cooperative scheduler shim (vsync overlay); unsynchronised accesses invisible to lock-level scheduling are outside this check.",
             "5/C07"),
     "C08": ("fault_enumeration",
             "exhaustive crash-point enumeration: stop before every leveldb write of every commit/rollback (directory image + child-process kill), reopen, compare with pre/post state, continue",
-            "For 3 (quick) / 4 (thorough) histories of commits followed by a reorganisation (rollbacks + commits of a competing branch: transfers, contract calls with auto-receives and refunds, empty momentums, fork depth 1-5) delivered through InsertChain to a real node, the process is stopped before every leveldb write call-out of every ldbManager.Add / Pop and between operations (quick: database directory imaged inside the call-out; thorough: additionally a child process that os.Exit(137)s inside the call-out without closing, for every point). Every image must open as a node, hold exactly the pre- or post-state of the interrupted operation over the whole raw key space (ledger, redo, undo) and reach the crash-free final state after re-delivery.",
+            "For 4 (quick) / 5 (thorough) histories of commits followed by a reorganisation (rollbacks + commits of a competing branch: transfers, contract calls with auto-receives and refunds, empty momentums, momentums of about 160 KiB, fork depth 1-5) delivered through InsertChain to a real node, the process is stopped before every leveldb write call-out of every ldbManager.Add / Pop and between operations (quick: database directory imaged inside the call-out; thorough: additionally a child process that os.Exit(137)s inside the call-out without closing, for every point). Every image must open as a node, hold exactly the pre- or post-state of the interrupted operation over the whole raw key space (ledger, redo, undo) and reach the crash-free final state after re-delivery.",
             "Process stops between leveldb writes only; goleveldb's own journal atomicity for a single Write is trusted; fsync/power loss out of scope.",
             "5/C08"),
     "C05": ("model_checking",
@@ -33,7 +33,7 @@ CHECKS = {
             "5/C06"),
     "C16": ("model_checking",
             "exhaustive enumeration of delivered batch shapes against local chains of 3 lengths, reference decision by construction + differential oracle against a fresh node",
-            "Local chains of 3, 8 and 35 momentums; every batch of the stated family (extensions 1-3, known prefix + extension, duplicates, forks at depth 1,2,3,30,31 (thorough also 29) with shorter/equal/longer side chains, longer side chains with an invalid element at every position, gaps, alien chains, forged heights on a known parent, empty batch, each of 12 kinds of invalid element at every position of a 3-momentum extension followed by an overlapping valid re-delivery) is delivered through the real InsertChain. The node's final frontier and raw store must equal a fresh node fed the chain the reference decision prescribes, the returned index must be the position of the first failing momentum, nothing may panic.",
+            "Local chains of 3, 8 and 35 momentums; every batch of the stated family (longer side chains whose last momentum, produced by a misbehaving elected pillar, cements a block acknowledging the abandoned tip - with and without that block pooled beforehand; extensions 1-3, known prefix + extension, duplicates, forks at depth 1,2,3,30,31 (thorough also 29) with shorter/equal/longer side chains, longer side chains with an invalid element at every position, gaps, alien chains, forged heights on a known parent, empty batch, each of 12 kinds of invalid element at every position of a 3-momentum extension followed by an overlapping valid re-delivery) is delivered through the real InsertChain. The node's final frontier and raw store must equal a fresh node fed the chain the reference decision prescribes, the returned index must be the position of the first failing momentum, nothing may panic.",
             "Validity of batch elements is known by construction; InsertChain is the seam below fetcher/downloader.",
             "5/C16"),
     "C14": ("model_checking",
@@ -53,8 +53,8 @@ CHECKS = {
             "5/C03"),
     "C04": ("model_checking",
             "bounded-history explicit-state exploration on a real node with whole-ledger receive-once / FIFO invariants recomputed independently after every transition",
-            "All histories of depth 3 (quick) / 4 + extended alphabet (thorough) over 15 operations (calls to 3 contracts from 4 accounts, momentum with and without the producer's auto-receive phase so inboxes grow, user receives in and out of order, repeated receive, receive by the wrong account, competing higher-plasma receives replacing pooled ones, a hand-generated contract receive for inbox entry #2 while #1 is pending, restart) from 2 base states. After every transition, at the confirmed ledger and the pool view: every send has at most one receiving block and it is made by the addressee; every contract's receive sequence equals a prefix of the queue recomputed from the confirmed chain (momentum order, content order, block before descendants).",
-            "Live-network receiver-enforcement regime; reorganisation is exercised by C06's differential oracle rather than here.",
+            "All histories of depth 3 (quick) / 4 + extended alphabet (thorough) over 18 operations (calls to 3 contracts from 4 accounts, momentum with and without the producer's auto-receive phase so inboxes grow, user receives in and out of order, repeated receive of a confirmed / of a still unconfirmed receive / acknowledging an older momentum, receive by the wrong account, competing higher-plasma receives replacing pooled ones, a hand-generated contract receive for inbox entry #2 while #1 is pending, a reorganisation onto a branch that confirms the pooled sends first, restart) from 3 base states. After every transition, at the confirmed ledger and the pool view: every send has at most one receiving block and it is made by the addressee; every contract's receive sequence equals a prefix of the queue recomputed from the confirmed chain (momentum order, content order, block before descendants).",
+            "Live-network receiver-enforcement regime; reorganisations of fork depth 1.",
             "5/C04"),
     "C09": ("model_checking",
             "bounded exhaustive product enumeration of contract x method x argument/amount/token domains (and non-canonical encodings) in 5 spork regimes and 3 base states; every send the real node accepts is driven through the real receive generation, a follower and a probe call",
@@ -63,12 +63,12 @@ CHECKS = {
             "5/C09"),
     "C10": ("model_checking",
             "bounded-history explicit-state exploration per contract family on a real node with an independent ledger auditor (liabilities and entitlements recomputed from the ledger) evaluated after every transition",
-            "Per family (stake; plasma fusions; sentinel collateral + QSR deposit; pillar QSR deposit) all histories of depth 3 (quick) / 4 (thorough) over 6-10 operations (deposits of two accounts and durations, withdrawal attempts by owner / stranger / beneficiary, with known and unknown ids, before and after maturity, repeated; reward collection; momentums as time) from 2 base states each (genesis; entries existing: one mature, one not), with lock periods shrunk to 2-3 momentums. After every transition, at the confirmed ledger and the pool view, an auditor replays each contract's receive blocks from the ledger alone and checks: ledger-derived liabilities == liabilities in contract storage <= contract balance (per contract and token); every payout matched by an entitlement (entitled party, not before the lock allows, not twice, exact amount and recipient); a matured withdrawal by the entitled party pays out.",
-            "HTLC, liquidity stake and bridge unwrap (need activated sporks) and pillar registration/revocation are not covered; lock constants shrunk (logic is parametric in them).",
+            "Per family (stake; plasma fusions; sentinel collateral + QSR deposit; pillar QSR deposit; HTLC with the spork activated by the base prefix) all histories of depth 3 (quick) / 4 (thorough) over 7-13 operations (deposits of two accounts and durations, deposit attempts in the wrong token, withdrawal attempts by owner / stranger / beneficiary, with known and unknown ids, before and after maturity, repeated; HTLC unlock with right / wrong / oversized preimage by beneficiary and by proxy, reclaim by depositor and stranger, deny/allow proxy unlock; reward collection; momentums as time) from 2-3 base states each (genesis; entries existing: one mature, one not; proxy unlock denied), with lock periods shrunk to 2-4 momentums. After every transition, at the confirmed ledger and the pool view, an auditor replays each contract's receive blocks from the ledger alone and checks: ledger-derived liabilities == liabilities in contract storage <= contract balance (per contract and token); every payout matched by an entitlement (entitled party, not before the lock allows, not twice, exact amount and recipient); a matured withdrawal by the entitled party pays out.",
+            "Liquidity stake, bridge unwrap and pillar registration/revocation are not covered; lock constants shrunk (logic is parametric in them).",
             "5/C10"),
     "C11": ("model_checking",
             "bounded-history explicit-state exploration on a real node with short epochs; per-epoch reward invariants evaluated after every transition + follower differential at the end of every history",
-            "Epochs of 6 momentums. All histories of depth 3 (quick) / 4 + extended alphabet (thorough) over 12 operations (momentum, 3 momentums, skipped slot = missed momentum, delegate / undelegate, stake entering, stake leaving, explicit Update calls on stake and pillar contracts, CollectReward by staker / pillar / delegator) from 2 base states (just before the first epoch end with a stake and a delegation; two epochs in with a registered sentinel and pending rewards). After every transition for pillar, sentinel, stake and liquidity contracts: credited ZNN/QSR per epoch <= the contract's emission share recomputed from the tables; last rewarded epoch never decreases; an epoch's reward history never changes once written and none exists beyond the last rewarded epoch; for every address credited == collected (minted through CollectReward) + pending. At the end of every history a follower fed in one batch and a follower fed half / restarted with a wiped consensus cache / fed the rest must be byte-identical to the producer.",
+            "Epochs of 6 momentums. All histories of depth 3 (quick) / 4 + extended alphabet (thorough) over 11 (quick) / 18 (thorough) operations (momentum, 3 momentums, skipped slot = missed momentum, delegate / undelegate, stake entering, stake leaving, explicit Update calls, CollectReward by staker / pillar / delegator, a read-only consensus query in the middle of an epoch, revocation of a pillar) from 3 base states (pillar 3 revoked, inside the second period of the next epoch; just before the first epoch end with a stake and a delegation; two epochs in with a registered sentinel and pending rewards). The explored state is ledger + pool bytes + the heights at which read-only queries were made (they touch in-memory consensus caches). After every transition for pillar, sentinel, stake and liquidity contracts: credited ZNN/QSR per epoch <= the contract's emission share recomputed from the tables; last rewarded epoch never decreases; an epoch's reward history never changes once written and none exists beyond the last rewarded epoch; for every address credited == collected (minted through CollectReward) + pending. At the end of every history a follower fed in one batch and a follower fed half / restarted with a wiped consensus cache / fed the rest must be byte-identical to the producer.",
             "Shrunk epoch/tick/update constants (mutually consistent); reward history read for all accounts that act in the histories.",
             "5/C11"),
     "C12": ("exploration",
